@@ -12,11 +12,14 @@ TraceInit == l = 1 /\ req = [b |-> "unix", r |-> [kind |-> "anon", size |-> 1, f
 TraceNext ==
     /\ l <= Len(Rec)
     /\ LET e == Rec[l] IN
-       IF e.op = "wrap"
+       IF e.op = "race"
+       THEN \* concurrent creations over one open file: all requests are safe, none may be refused (a sample of schedules)
+            Judge(e.r.k = "ok" /\ e.r.refused = 0, "decision", [expected |-> "every request accepted"])
+       ELSE IF e.op = "wrap"
        THEN LET d == WrapDecision(e.a.size, e.a.gbase) IN
             /\ Judge(d = "any" \/ e.r.k = d, "decision", [expected |-> d])
             /\ Judge((d = "ok" /\ e.r.k = "ok") => (e.r.start = e.a.gbase /\ e.r.len = e.a.size /\ e.r.last = e.a.gbase + e.a.size - 1
-                                                    /\ e.r.mapped >= e.a.size),
+                                                    /\ (e.a.api = "from_range_anon" \/ e.r.mapped >= e.a.size)),
                      "attributes", [expected |-> d])
             /\ Judge(e.r.k = "err" => e.r.left_mapped = 0, "left_behind", [expected |-> d])
        ELSE IF e.op = "build"
@@ -35,6 +38,7 @@ TraceNext ==
        ELSE LET x == XenBuild(XReq(e.a)) IN
             /\ Judge(e.a.badflags \/ (e.r.k = x.k /\ (x.k = "err" => e.r.e \in XenErrSet(XReq(e.a)))), "decision", [expected |-> x])
             /\ Judge((e.r.k = "ok" /\ ~e.a.badflags) => /\ e.r.size = e.a.size /\ e.r.xflags = e.a.mflags /\ e.r.xdata = 5
+                                     /\ ("prot" \in DOMAIN e.a => e.r.prot = e.a.prot)      \* the protection asked for, PROT_NONE included
                                      /\ e.r.has_file = e.a.file /\ (e.a.file => e.r.foff = e.a.foff)
                                      /\ ("coherent" \in DOMAIN e.r => e.r.coherent),
                      "attributes", [expected |-> x])
